@@ -276,3 +276,27 @@ func vrtConfigFile(readErr, yamlErr bool, typ string) string {
 	}
 	return p
 }
+
+// vrtPath: an import path (letters, digits, '.', '_', '/', '-'), no leading or trailing '.'.
+func vrtPath(s string) bool {
+	for i := 0; i < len(s); i++ {
+		c := s[i]
+		if !(c >= 'a' && c <= 'z') && !(c >= 'A' && c <= 'Z') && !(c >= '0' && c <= '9') && c != '_' && c != '/' && c != '-' {
+			return false
+		}
+	}
+	return true
+}
+
+// vrtEmitted / vrtCount: what write() emitted. Natively the rendered text is searched; symbolically
+// the engine answers from the events recorded by the generator stubs.
+func vrtEmitted(buf interface{ String() string }) string { return buf.String() }
+func vrtCount(out string, marker string) int {
+	n := 0
+	for i := 0; i+len(marker) <= len(out); i++ {
+		if out[i:i+len(marker)] == marker {
+			n++
+		}
+	}
+	return n
+}
